@@ -60,7 +60,13 @@ func servers(tb skipFataler) (*opclient.Client, *opclient.Client) {
 		}
 		for _, kv := range strings.Split(os.Getenv("VERIF_OPSERVER_EXTRA"), ",") {
 			if name, path, ok := strings.Cut(kv, "="); ok && path != "" {
-				c, err := opclient.Start(path)
+				// "<name>=<path>[|K=V...]": @ASM@ stands for the assembly op-server binary; K=V pairs are
+				// added to the child's environment (e.g. GODEBUG=cpu.all=off)
+				parts := strings.Split(path, "|")
+				if parts[0] == "@ASM@" {
+					parts[0] = a
+				}
+				c, err := opclient.StartEnv(parts[0], parts[1:])
 				if err != nil {
 					startError = err
 					return
